@@ -27,3 +27,7 @@ def c03() -> Monitors:
 
 def c17_builtin() -> Monitors:
     return Monitors("C17", [m.c17_transition, m.c17_builtin_only, m.cov_matrix], [m.c17_initial], m.outcome_vector)
+
+
+def c04() -> Monitors:
+    return Monitors("C04", [m.c04_transition, m.cov_matrix], [], m.outcome_vector)
